@@ -350,6 +350,9 @@ func (fr *Frame) lookup(x *ssa.Lookup, st *State) *Val {
 	for _, f := range u.wfFacts(st, res.T, mt.Elem(), 0) {
 		u.fact(f)
 	}
+	if u.nonnilElem(mt.Elem()) {
+		u.fact(implies(and(in, fmt.Sprintf("(< (birth %s) %s)", m.T, u.entryNow)), u.nonnilFact(res.T, mt.Elem())))
+	}
 	if x.CommaOk {
 		okc := u.w.newConst("ok:"+x.Name(), "Bool")
 		u.fact(eq(okc, in))
@@ -455,6 +458,9 @@ func (fr *Frame) nextOp(x *ssa.Next, st *State) *Val {
 	}
 	for _, f := range u.wfFacts(st, v.T, mt.Elem(), 0) {
 		u.fact(f)
+	}
+	if u.nonnilElem(mt.Elem()) {
+		u.fact(implies(and(ok, fmt.Sprintf("(< (birth %s) %s)", it.mapRef, u.entryNow)), u.nonnilFact(v.T, mt.Elem())))
 	}
 	nv := u.w.newConst("visited", u.ghostSort[gk])
 	u.fact(eq(nv, ite(ok, fmt.Sprintf("(store %s %s true)", visited, k), visited)))
